@@ -20,26 +20,44 @@
    worker's path.  Intended (FixUnlinkFirst = TRUE): unlink-if-ours first, close second -- while the listener is open
    its inode cannot be freed, so the identity test cannot be fooled.
 
+   Configuration (chosen in Init): hashed = TRUE -- the socket path is derived from the command hash, launch() writes a
+   <hash>.meta file before spawning; FALSE -- LaunchConfig.socket_path is given (sibling lock file, no .meta).
+   Worker stdout: the launcher reads lines until `UNIX:<path>`; a worker may print other lines first (noise[w] of them):
+   each is one LReadNoise step of the real _spawn_worker loop.
+   Garbage collector g (gc_state_dir: the `--gc` command line, or the opportunistic pass another command's launcher
+   runs after releasing its own lock): start -GStart-> try -GTry-> probe | done -GProbe-> done.  It enumerates
+   .meta files, takes the per-hash lock WITHOUT blocking, probes, and unlinks socket + meta only if nobody answers.
+
    Environment assumption: a worker does not leave `serving` while the launcher that spawned it still waits for its
    readiness line (the startup grace of max(idle_timeout, 60) s covers that wait).                                *)
 EXTENDS Naturals, FiniteSets, TLC
 
 CONSTANTS NLaunch,           \* number of concurrent launcher processes (each spawns at most one worker)
           FixUnlinkFirst,    \* worker exit: unlink-if-ours before closing the listener (intended) / after (shipped)
-          InodeReuse         \* the filesystem may hand a freed inode number out again
+          InodeReuse,        \* the filesystem may hand a freed inode number out again
+          HashedSet,         \* path modes explored: TRUE = hashed path (+ .meta), FALSE = explicit socket_path
+          NoiseSet,          \* how many non-UNIX: lines a worker prints before its readiness line
+          GcInit             \* {"start"} = a gc_state_dir pass runs concurrently, {"off"} = none
 Launchers == 1..NLaunch
 Workers == 1..NLaunch
+G == NLaunch + 1             \* the collector's identity as a lock holder
 
-VARIABLES pc, res, mine,      \* launcher: program counter, how launch() ended, the worker it spawned (0 = none)
+VARIABLES hashed,             \* configuration of this run
+          pc, res, mine,      \* launcher: program counter, how launch() ended, the worker it spawned (0 = none)
           lk,                 \* holder of the per-hash file lock (0 = free)
           wst, nW,            \* worker state, number of workers created so far
+          noise,              \* worker: stdout lines still to be read before the readiness line
           path,               \* 0 = no socket entry at the path, w = the entry is worker w's socket inode
           ino,                \* inode number of worker w's socket (0 = not bound yet); a fresh number is w itself
+          meta,               \* the <hash>.meta file exists
+          gpc,                \* the collector
           badSpawn, badReturn \* ghost: evaluated at spawn / at return
-vars == <<pc, res, mine, lk, wst, nW, path, ino, badSpawn, badReturn>>
+vars == <<hashed, pc, res, mine, lk, wst, nW, noise, path, ino, meta, gpc, badSpawn, badReturn>>
 
-Init == /\ pc = [i \in Launchers |-> "start"] /\ res = [i \in Launchers |-> "none"] /\ mine = [i \in Launchers |-> 0]
+Init == /\ hashed \in HashedSet /\ gpc \in GcInit /\ meta = FALSE
+        /\ pc = [i \in Launchers |-> "start"] /\ res = [i \in Launchers |-> "none"] /\ mine = [i \in Launchers |-> 0]
         /\ lk = 0 /\ wst = [w \in Workers |-> "none"] /\ nW = 0 /\ path = 0 /\ ino = [w \in Workers |-> 0]
+        /\ noise = [w \in Workers |-> 0]
         /\ badSpawn = FALSE /\ badReturn = FALSE
 
 Listening(w) == wst[w] = "serving" \/ (FixUnlinkFirst /\ wst[w] = "closing")     \* the listening socket is open
@@ -52,54 +70,75 @@ EverUsed == {ino[v] : v \in {u \in Workers : ino[u] # 0}}
 
 \* ---- launcher ----
 LBegin(i) == /\ pc[i] = "start" /\ pc' = [pc EXCEPT ![i] = "lock"]
-             /\ UNCHANGED <<res, mine, lk, wst, nW, path, ino, badSpawn, badReturn>>
+             /\ UNCHANGED <<hashed, res, mine, lk, wst, nW, noise, path, ino, meta, gpc, badSpawn, badReturn>>
 \* FileLock.acquire(); _require_socket_or_absent()
 LLock(i) == /\ pc[i] = "lock" /\ lk = 0 /\ lk' = i /\ pc' = [pc EXCEPT ![i] = "probe"]
-            /\ UNCHANGED <<res, mine, wst, nW, path, ino, badSpawn, badReturn>>
+            /\ UNCHANGED <<hashed, res, mine, wst, nW, noise, path, ino, meta, gpc, badSpawn, badReturn>>
 \* _probe(): answered -> return the path (finally: release the lock)
 LProbe(i) == /\ pc[i] = "probe"
              /\ IF Accepting
                 THEN /\ pc' = [pc EXCEPT ![i] = "done"] /\ res' = [res EXCEPT ![i] = "probe"] /\ lk' = 0
                      /\ UNCHANGED badReturn
                 ELSE /\ pc' = [pc EXCEPT ![i] = "unlink"] /\ UNCHANGED <<res, lk, badReturn>>
-             /\ UNCHANGED <<mine, wst, nW, path, ino, badSpawn>>
-\* _unlink_stale_socket(); _write_meta()
+             /\ UNCHANGED <<hashed, mine, wst, nW, noise, path, ino, meta, gpc, badSpawn>>
+\* _unlink_stale_socket(); _write_meta() (hashed paths only)
 LUnlink(i) == /\ pc[i] = "unlink" /\ path' = 0 /\ pc' = [pc EXCEPT ![i] = "spawn"]
-              /\ UNCHANGED <<res, mine, lk, wst, nW, ino, badSpawn, badReturn>>
-\* _spawn_worker(): Popen
-LSpawn(i) == /\ pc[i] = "spawn" /\ nW < NLaunch
-             /\ nW' = nW + 1 /\ wst' = [wst EXCEPT ![nW + 1] = "start"] /\ mine' = [mine EXCEPT ![i] = nW + 1]
-             /\ badSpawn' = (badSpawn \/ Alive # {})
-             /\ pc' = [pc EXCEPT ![i] = "ready"]
-             /\ UNCHANGED <<res, lk, path, ino, badReturn>>
+              /\ meta' = (meta \/ hashed)
+              /\ UNCHANGED <<hashed, res, mine, lk, wst, nW, noise, ino, gpc, badSpawn, badReturn>>
+\* _spawn_worker(): Popen; the worker will print nz lines of its own before the readiness line
+LSpawn(i, nz) == /\ pc[i] = "spawn" /\ nW < NLaunch
+                 /\ nW' = nW + 1 /\ wst' = [wst EXCEPT ![nW + 1] = "start"] /\ mine' = [mine EXCEPT ![i] = nW + 1]
+                 /\ noise' = [noise EXCEPT ![nW + 1] = nz]
+                 /\ badSpawn' = (badSpawn \/ Alive # {})
+                 /\ pc' = [pc EXCEPT ![i] = "ready"]
+                 /\ UNCHANGED <<hashed, res, lk, path, ino, meta, gpc, badReturn>>
+\* _spawn_worker(): a line that does not start with UNIX: is skipped
+LReadNoise(i) == /\ pc[i] = "ready" /\ noise[mine[i]] > 0
+                 /\ noise' = [noise EXCEPT ![mine[i]] = noise[mine[i]] - 1]
+                 /\ UNCHANGED <<hashed, pc, res, mine, lk, wst, nW, path, ino, meta, gpc, badSpawn, badReturn>>
 \* _spawn_worker(): the UNIX:<path> line arrived (return the path) or the worker exited first (RuntimeError)
-LReady(i) == /\ pc[i] = "ready" /\ wst[mine[i]] \in {"serving", "failed"}
+LReady(i) == /\ pc[i] = "ready" /\ noise[mine[i]] = 0 /\ wst[mine[i]] \in {"serving", "failed"}
              /\ pc' = [pc EXCEPT ![i] = "done"]
              /\ res' = [res EXCEPT ![i] = IF wst[mine[i]] = "serving" THEN "spawn" ELSE "error"]
              /\ badReturn' = (badReturn \/ (wst[mine[i]] = "serving" /\ ~Accepting))
              /\ lk' = IF lk = i THEN 0 ELSE lk
-             /\ UNCHANGED <<mine, wst, nW, path, ino, badSpawn>>
+             /\ UNCHANGED <<hashed, mine, wst, nW, noise, path, ino, meta, gpc, badSpawn>>
 
 \* ---- worker (serve_unix) ----
 WStart(w) == /\ wst[w] = "start" /\ wst' = [wst EXCEPT ![w] = "check"]
-             /\ UNCHANGED <<pc, res, mine, lk, nW, path, ino, badSpawn, badReturn>>
+             /\ UNCHANGED <<hashed, pc, res, mine, lk, nW, noise, path, ino, meta, gpc, badSpawn, badReturn>>
 WCheck(w) == /\ wst[w] = "check"
              /\ wst' = [wst EXCEPT ![w] = IF Accepting THEN "failed" ELSE "bind"]
-             /\ UNCHANGED <<pc, res, mine, lk, nW, path, ino, badSpawn, badReturn>>
+             /\ UNCHANGED <<hashed, pc, res, mine, lk, nW, noise, path, ino, meta, gpc, badSpawn, badReturn>>
 \* _unlink_stale_unix_socket(); bind() allocates an inode: a fresh number, or one that is free by now
 WBind(w) == /\ wst[w] = "bind" /\ path' = w /\ wst' = [wst EXCEPT ![w] = "serving"]
             /\ \E n \in {w} \cup (IF InodeReuse THEN EverUsed \ InUse(0) ELSE {}) : ino' = [ino EXCEPT ![w] = n]
-            /\ UNCHANGED <<pc, res, mine, lk, nW, badSpawn, badReturn>>
+            /\ UNCHANGED <<hashed, pc, res, mine, lk, nW, noise, meta, gpc, badSpawn, badReturn>>
 WClose(w) == /\ wst[w] = "serving" /\ \A i \in Launchers : ~(pc[i] = "ready" /\ mine[i] = w)
              /\ wst' = [wst EXCEPT ![w] = "closing"]
-             /\ UNCHANGED <<pc, res, mine, lk, nW, path, ino, badSpawn, badReturn>>
+             /\ UNCHANGED <<hashed, pc, res, mine, lk, nW, noise, path, ino, meta, gpc, badSpawn, badReturn>>
 \* _unlink_bound_unix_socket(): unlink iff lstat(path) reports this worker's (st_dev, st_ino)   [+ close, if intended]
 WUnlink(w) == /\ wst[w] = "closing" /\ wst' = [wst EXCEPT ![w] = "gone"]
               /\ path' = IF path # 0 /\ ino[path] = ino[w] THEN 0 ELSE path
-              /\ UNCHANGED <<pc, res, mine, lk, nW, ino, badSpawn, badReturn>>
+              /\ UNCHANGED <<hashed, pc, res, mine, lk, nW, noise, ino, meta, gpc, badSpawn, badReturn>>
 
-Next == \/ \E i \in Launchers : LBegin(i) \/ LLock(i) \/ LProbe(i) \/ LUnlink(i) \/ LSpawn(i) \/ LReady(i)
+\* ---- gc_state_dir ----
+\* glob("*.meta"): nothing to do without a .meta file
+GStart == /\ gpc = "start" /\ gpc' = (IF meta THEN "try" ELSE "done")
+          /\ UNCHANGED <<hashed, pc, res, mine, lk, wst, nW, noise, path, ino, meta, badSpawn, badReturn>>
+\* FileLock(timeout=0).acquire(): held by a launcher -> skip this entry
+GTry == /\ gpc = "try"
+        /\ IF lk = 0 THEN lk' = G /\ gpc' = "probe" ELSE gpc' = "done" /\ UNCHANGED lk
+        /\ UNCHANGED <<hashed, pc, res, mine, wst, nW, noise, path, ino, meta, badSpawn, badReturn>>
+\* _probe(): a worker answers -> leave everything; nobody answers -> unlink socket, meta (and the lock file); release
+GProbe == /\ gpc = "probe" /\ gpc' = "done" /\ lk' = 0
+          /\ IF Accepting THEN UNCHANGED <<path, meta>> ELSE path' = 0 /\ meta' = FALSE
+          /\ UNCHANGED <<hashed, pc, res, mine, wst, nW, noise, ino, badSpawn, badReturn>>
+
+Next == \/ \E i \in Launchers : LBegin(i) \/ LLock(i) \/ LProbe(i) \/ LUnlink(i) \/ LReadNoise(i) \/ LReady(i)
+                                 \/ \E nz \in NoiseSet : LSpawn(i, nz)
         \/ \E w \in Workers : WStart(w) \/ WCheck(w) \/ WBind(w) \/ WClose(w) \/ WUnlink(w)
+        \/ GStart \/ GTry \/ GProbe
 Spec == Init /\ [][Next]_vars
 
 \* ---------------------------------------------------------------- property clauses (C33, first sentence)
@@ -109,10 +148,12 @@ ReturnedAccepting == ~badReturn               \* launch returns a path that was 
 \* (LProbe returns in the very step in which the probe's connect() succeeded, so only LReady can break it)
 
 \* ---------------------------------------------------------------- model sanity
-TypeOK == /\ lk \in 0..NLaunch /\ nW \in 0..NLaunch /\ path \in 0..NLaunch /\ \A w \in Workers : ino[w] \in 0..NLaunch
-LockSane == lk # 0 => pc[lk] \in {"probe", "unlink", "spawn", "ready"}
+TypeOK == /\ lk \in 0..G /\ nW \in 0..NLaunch /\ path \in 0..NLaunch /\ \A w \in Workers : ino[w] \in 0..NLaunch
+LockSane == /\ lk \in Launchers => pc[lk] \in {"probe", "unlink", "spawn", "ready"}
+            /\ lk = G => gpc = "probe"
 NoLaunchFails == \A i \in Launchers : res[i] # "error"
 \* vacuity guards (expected to be violated)
 NeverReuses == \A i \in Launchers : res[i] # "probe"
 NeverRespawns == nW <= 1
+NeverCollects == ~(gpc = "done" /\ ~meta /\ nW > 0)
 =========================================================================================
